@@ -140,10 +140,9 @@ theorem gzipFold_plain (v : Bytes) (h : isGzipFold v = true) : Plain v ∧ v ≠
         rcases this with e | e <;> (subst e; revert hm; decide)
   · intro e; subst e; revert hl; decide
 
-/-- **decoded_is_single_coding** — whenever a body is decoded, on any stack, the line that was
-read denotes exactly ONE content coding: itself. -/
-theorem decoded_is_single_coding (s : Site) (i : RespIn) (h : decideAt s i ≠ .untouched) :
-    codings [i.ce] = [i.ce] := by
+/-- whenever a body is decoded the value that was read contains no comma and no white space -/
+theorem decoded_is_plain (s : Site) (i : RespIn) (h : decideAt s i ≠ .untouched) :
+    Plain i.ce ∧ i.ce ≠ [] := by
   have hcases : isGzipFold i.ce = true ∨ ∃ a, select i.ce = some a := by
     cases hf : isGzipFold i.ce with
     | true => exact Or.inl rfl
@@ -156,9 +155,15 @@ theorem decoded_is_single_coding (s : Site) (i : RespIn) (h : decideAt s i ≠ .
         cases s <;> simp [decideAt, decideH1, decideH2, decideH3, decideCore, hf, hs] <;>
           (repeat' split) <;> rfl
   rcases hcases with hf | ⟨a, ha⟩
-  · exact codings_plain _ (gzipFold_plain _ hf).1 (gzipFold_plain _ hf).2
+  · exact gzipFold_plain _ hf
   · rw [(select_eq_token _ _).mp ha]
-    exact codings_plain _ (token_plain a).1 (token_plain a).2
+    exact token_plain a
+
+/-- **decoded_is_single_coding** — whenever a body is decoded, on any stack, the line that was
+read denotes exactly ONE content coding: itself. -/
+theorem decoded_is_single_coding (s : Site) (i : RespIn) (h : decideAt s i ≠ .untouched) :
+    codings [i.ce] = [i.ce] :=
+  codings_plain _ (decoded_is_plain s i h).1 (decoded_is_plain s i h).2
 
 /-- **list_never_decoded** — a line that denotes two or more codings (`deflate, gzip`;
 `gzip,br`; `gzip , identity`) or none (`""`, `","`) is never decoded: the response is left
@@ -232,5 +237,96 @@ theorem later_lines_alone_never_decode (s : Site) (ag auto hd hb : Bool) (v : By
 
 example : decideAt .h2 (respInOfLines true true false true [tokDeflate, tokGzip]) = .decompress .deflate := by decide
 example : decideAt .h2 (respInOfLines true false false true [tokDeflate, tokGzip]) = .untouched := by decide
+
+/-! ### the repaired reading: every line counts (fixes/C14-7) -/
+
+theorem joinLines_comma (v w : Bytes) (rest : List Bytes) : (44 : UInt8) ∈ joinLines (v :: w :: rest) := by
+  simp [joinLines]
+
+/-- **joined_single_line** — with at most one Content-Encoding line the repaired reading is the
+code's reading: same decision, same response. -/
+theorem joined_single_line (s : Site) (c : ReqCfg) (auto hasBody : Bool) (r : Resp)
+    (h : (ceLines r.header).length ≤ 1) :
+    Joined.process s c auto hasBody r = process s c auto hasBody r := by
+  have e : fieldValue r.header = hget r.header hContentEncoding := by
+    rw [hget_eq_firstLine]
+    unfold fieldValue
+    match hl : ceLines r.header with
+    | [] => rfl
+    | [v] => rfl
+    | _ :: _ :: _ => rw [hl] at h; simp at h
+  unfold Joined.process process Joined.respIn respIn
+  rw [e]
+
+/-- **several_lines_untouched** — under the repaired reading a response with two or more
+Content-Encoding lines is a list: left alone on every stack, under every configuration (whatever
+the lines say — `gzip` + `gzip` is a body gzipped twice, not once). -/
+theorem several_lines_untouched (s : Site) (c : ReqCfg) (auto hasBody : Bool) (r : Resp)
+    (h : 2 ≤ (ceLines r.header).length) :
+    Joined.process s c auto hasBody r = ⟨r, some .raw⟩ := by
+  have hu : decideAt s (Joined.respIn s c auto hasBody r) = .untouched := by
+    apply Classical.byContradiction
+    intro hn
+    have hp := (decoded_is_plain s _ hn).1
+    match hl : ceLines r.header with
+    | [] => rw [hl] at h; simp at h
+    | [_] => rw [hl] at h; simp at h
+    | v :: w :: rest =>
+      have hm : (44 : UInt8) ∈ (Joined.respIn s c auto hasBody r).ce := by
+        show (44 : UInt8) ∈ joinLines (ceLines r.header)
+        rw [hl]; exact joinLines_comma v w rest
+      exact (hp 44 hm).1 rfl
+  unfold Joined.process
+  rw [hu]; rfl
+
+/-- **decode_iff_single_supported_token** over ALL the raw lines — under the repaired reading a
+response is decoded only if it has exactly ONE Content-Encoding line and that line is one coding
+as it stands. -/
+theorem joined_decoded_single_line_single_coding (s : Site) (c : ReqCfg) (auto hasBody : Bool) (r : Resp)
+    (h : (Joined.process s c auto hasBody r).body ≠ some .raw) :
+    ∃ v, ceLines r.header = [v] ∧ codings (ceLines r.header) = [v] := by
+  match hl : ceLines r.header with
+  | [] =>
+    exfalso; apply h
+    have : Joined.process s c auto hasBody r = process s c auto hasBody r :=
+      joined_single_line s c auto hasBody r (by rw [hl]; simp)
+    rw [this]
+    have hce : hget r.header hContentEncoding = [] := by rw [hget_eq_firstLine, hl]; rfl
+    have hu : decideAt s (respIn s c auto hasBody r) = .untouched := by
+      apply Classical.byContradiction
+      intro hn
+      exact (decoded_is_plain s _ hn).2 hce
+    unfold process; rw [hu]; rfl
+  | [v] =>
+    refine ⟨v, rfl, ?_⟩
+    have hn : decideAt s (Joined.respIn s c auto hasBody r) ≠ .untouched := by
+      intro hu; apply h; unfold Joined.process; rw [hu]; rfl
+    have := decoded_is_single_coding s _ hn
+    have hv : (Joined.respIn s c auto hasBody r).ce = v := by
+      show joinLines (ceLines r.header) = v
+      rw [hl]; rfl
+    rw [hv] at this
+    exact this
+  | v :: w :: rest =>
+    exfalso; apply h
+    rw [several_lines_untouched s c auto hasBody r (by rw [hl]; simp)]
+
+/-- the first-line reading (the code until fixes/C14-7 is applied) and the repaired one differ
+only on responses with several Content-Encoding lines -/
+theorem first_line_differs_only (s : Site) (c : ReqCfg) (auto hasBody : Bool) (r : Resp)
+    (h : Joined.process s c auto hasBody r ≠ process s c auto hasBody r) :
+    2 ≤ (ceLines r.header).length := by
+  apply Classical.byContradiction
+  intro hn
+  exact h (joined_single_line s c auto hasBody r (by omega))
+
+-- `Content-Encoding: gzip` twice (a body gzipped twice): the code gunzips once and removes both
+-- lines; the repaired reading leaves the response alone
+example :
+    (process .h1 ⟨false, [71, 69, 84], [], []⟩ false true
+      ⟨[(hContentEncoding, tokGzip), (hContentEncoding, tokGzip)], 5, false⟩) = ⟨⟨[], -1, true⟩, some .gunzip⟩ := by decide
+example :
+    (Joined.process .h1 ⟨false, [71, 69, 84], [], []⟩ false true
+      ⟨[(hContentEncoding, tokGzip), (hContentEncoding, tokGzip)], 5, false⟩).body = some .raw := by decide
 
 end Req.Props.C14Lines
